@@ -246,7 +246,9 @@ def strat_xy(tier):
     return st.fixed_dictionaries({
         'fn': st.sampled_from(['xy', 'xy', 'hopkins']), 'm': e, 'n': e, 'a': st.one_of(st.integers(-6, 6), st.sampled_from([-40, 40])), 'b': e, 'c': e,
         'grid': st.sampled_from(['mesh', 'mesh', 'free']), 'gshape': st.tuples(s, s).map(list), 'shape': point_shapes(), 'seed': U.seeds,
-        'v': variants(('f64', 'f32', 'int'))})
+        'v': variants(('f64', 'f32', 'int')),
+        # a coordinate that is exactly zero everywhere: the on-axis field point H = 0 (H^0 = 1), the pupil centre r = 0, the meridian t = 0
+        'zero': st.sampled_from(['none', 'none', 'none', 'H', 'H', 'r', 't'])})
 
 
 def ipow(x, k):
@@ -306,6 +308,14 @@ def check_xy(case, ctx):
         rr, _ = make_points(case['seed'], shape, 0.0, 1.0, True, salt=1, kind=kind)
         t, _ = make_points(case['seed'], shape, -math.pi, 2 * math.pi, False, salt=2, kind='f32' if kind == 'f32' else 'f64')
         Hh, _ = make_points(case['seed'], shape, -1.0, 1.0, False, salt=3, kind=kind)
+        zero = case.get('zero', 'none')
+        if zero == 'H':
+            Hh = Hh * 0
+        elif zero == 'r':
+            rr = rr * 0
+        elif zero == 't':
+            t = t * 0
+        ctx.label('all-zero:' + zero)
         rarg = present(rr, shape, v)
         targ = present(t, shape, v, layout=v['layout2'], kind='f32' if kind == 'f32' else 'f64')
         harg = present(Hh, shape, v)
